@@ -14,6 +14,22 @@ CHECKS = {
         ref='5/C20'),
 }
 
+CHECKS['C11'] = dict(
+    engine='enum_utf + hypothesis/grdrv',
+    technique='exhaustive enumeration + property-based testing (differential across encodings) with a Unicode Table 3-7 reference under ASan',
+    text='gr_count_unicode_characters: exhaustive over all byte strings of length <= 3 (bounded and NUL-terminated modes), all single UTF-16 units, '
+         'all UTF-32 values, structured longer strings, each ending at the end of a heap block, judged by an independent classifier. Encoding '
+         'equivalence and non-derailing explored with generated texts over shipped fonts. Exploration level.',
+    note='Trusted: ASan, the reference classifier (harness/utfref.h, utfjudge.h). Surrogate code points in UTF-8/UTF-32 are treated as unspecified.',
+    ref='5/C11')
+CHECKS['C12'] = dict(
+    engine='hypothesis/grdrv',
+    technique='property-based testing: NUL-terminated exact-size buffers under ASan, metamorphic relation to the exact-count call',
+    text='Generated NUL-terminated strings in three encodings with nChars >= true length, buffer ending at the terminator: ASan silent, '
+         'n_cinfo equals the true length, segment identical to the exact-count segment. Exploration level.',
+    note='Trusted: ASan red zones; my UTF encoder.',
+    ref='5/C12')
+
 NOT_YET = {}
 
 def main():
